@@ -31,8 +31,8 @@ def run(m, chars, opts):
     if opts.context is not None:
         ns, local = opts.context
         attrs = VecM([Struct("Attribute", [qualname("", k), Tendril([ord(c) for c in v])]) for k, v in opts.context_attrs])
-        ctx = m.call("create_element", [Ptr([sink], 0), qualname(ns, local), attrs])
-        form = some(m.call("create_element", [Ptr([sink], 0), qualname("http://www.w3.org/1999/xhtml", "form"), VecM([])])) if opts.form else none()
+        ctx = domsink.ts_create_element(m, [Ptr([sink], 0), qualname(ns, local), attrs], "create_element")
+        form = some(domsink.ts_create_element(m, [Ptr([sink], 0), qualname("http://www.w3.org/1999/xhtml", "form"), VecM([])], "create_element")) if opts.form else none()
         st["context"] = ctx
         tb = m.call("TreeBuilder::new_for_fragment", [sink, ctx, form, tbo])
         init_state = some(m.call("TreeBuilder::tokenizer_state_for_context_elem", [Ptr([tb], 0), opts.ctx_scripting]))
@@ -62,12 +62,22 @@ def run(m, chars, opts):
             if res.variant == "Done" or guard > 64:
                 break
             # Script / EncodingIndicator: the document is not modified and the encoding is kept; parsing resumes
-            m.notes.setdefault("pauses", []).append((res.variant, _trace(m, tk)))
-        m.notes.setdefault("pauses", []).append(("chunk boundary", _trace(m, tk)))
+            _pause(m, tk, res.variant + " result")
+        _pause(m, tk, "chunk boundary")
     m.call("Tokenizer::end", [tkp])
     st["feed_results"] = results
     st["tb"] = tk.f[1] if isinstance(tk.f[1], Struct) and tk.f[1].ty == "TreeBuilder" else tb
     return st
+
+
+PAUSE_HOOK = None
+
+
+def _pause(m, tk, kind):
+    traced = _trace(m, tk)
+    m.notes.setdefault("pauses", []).append((kind, traced))
+    if PAUSE_HOOK is not None:
+        PAUSE_HOOK(m, kind, traced)
 
 
 def _trace(m, tk):
